@@ -86,6 +86,14 @@ fn scenarios(thorough: bool) -> Vec<Scn> {
             }
         }
     }
+    // FDT instances that arrive completely and then fail to parse (a new instance id each): nothing of them may stay
+    for &timeout_ms in &[Some(5u64), None] {
+        for &scale in &scales {
+            for session_alive in [false, true] {
+                v.push(Scn { session_alive, kind: "fdt_ids_invalid_complete", cache: Some(1024), max_err: 16, timeout_ms, scale, fec: 0 });
+            }
+        }
+    }
     // stalled objects while unrelated traffic (new FDT instances, new objects) keeps the session busy
     for &scale in &scales {
         for &max_err in &[0usize, 16] {
@@ -302,6 +310,30 @@ fn child(args: &[String]) -> ! {
                     }
                 }
             }
+            // complete FDT instances (every symbol delivered) whose document is not an FDT-Instance; cleanup() as an
+            // application timer would call it, every 50 instances
+            "fdt_ids_invalid_complete" => {
+                let n = 400 * s.scale;
+                for id in 0..n {
+                    let xml = match id % 4 {
+                        0 => format!("<?xml version=\"1.0\"?><NotAnFdt Expires=\"{}\">{}</NotAnFdt>", expires_in(3600), "x".repeat(600)),
+                        1 => format!("<?xml version=\"1.0\"?><FDT-Instance xmlns=\"urn:IETF:metadata:2005:FLUTE:FDT\" Expires=\"never\"><File TOI=\"3\" Content-Location=\"file:///m/f\"/>{}</FDT-Instance>", " ".repeat(600)),
+                        2 => format!("<?xml version=\"1.0\"?><FDT-Instance Expires=\"{}\"><File TOI=\"3\" Content-Location=\"file:///m/f\" Content-Length=\"1\">{}", expires_in(3600), "y".repeat(600)),
+                        _ => "\u{0}".repeat(700),
+                    };
+                    for b in wrap_fdt(xml.as_bytes(), 1, 5000 + id as u32, 1000, None, true) {
+                        let _ = rx.push(&ep, &b, now);
+                        pushes += 1;
+                    }
+                    if id % 50 == 49 {
+                        rx.cleanup(now);
+                        observe(&rx, &mut p);
+                    }
+                    if id + 1 == n / 10 || id + 1 == n {
+                        live_marks.push((pushes, alloc::live() - baseline));
+                    }
+                }
+            }
             "many_sessions" => {
                 let n = 300 * s.scale;
                 for t in 0..n {
@@ -469,6 +501,20 @@ fn child(args: &[String]) -> ! {
             add("heap_not_released", format!("{} bytes still live after the timeouts and a cleanup (baseline + {} bytes allowed: 192 KiB + 160 bytes of container capacity per peak object/session)", live_after, allowed), json!({"kind": s.kind}));
         }
     }
+    if s.timeout_ms.is_none() && s.kind == "fdt_ids_invalid_complete" {
+        // no timeout configured: an instance that failed is not 'unfinished', a cleanup releases it all the same
+        let _ = util::guarded(|| rx.cleanup(now + Duration::from_secs(1)));
+        let st = rx.verif_stats();
+        let fdtr: usize = st.iter().map(|x| x.fdt_receivers).sum();
+        let live_after = alloc::live() - baseline;
+        released = json!({"fdt_receivers": fdtr, "live_after": live_after});
+        if fdtr > 0 {
+            add("failed_fdt_not_released", format!("{} FDT instance(s) that failed to parse are still held after a cleanup (no object timeout configured)", fdtr), json!(null));
+        }
+        if live_after > (192isize << 10) + 160 * (p.max_objects + p.max_sessions) as isize {
+            add("heap_not_released", format!("{} bytes still live after the cleanup", live_after), json!({"kind": s.kind}));
+        }
+    }
     drop(rx);
     drop(builder);
     let out = json!({"scenario": format!("{:?}", s), "pushes": pushes, "max_cached_bytes": p.max_cached, "max_block_bytes": p.max_blocks_bytes,
@@ -486,7 +532,7 @@ fn main() {
     let prop = Property {
         id: "C17",
         level: "exploration",
-        rule: "traffic that keeps things undecodable, one scenario per single-threaded child process under the counting allocator: one object cached without FDT, many cached objects, decoded blocks waiting behind an incomplete block 0 (No-Code, RS28, RS28 under-specified, RaptorQ), FDT instance ids that never complete, hundreds of idle sessions, objects failing one after the other, many complete FDT instances, objects stalling under FDT updates, packets naming source blocks far ahead inside an announced partitioning of 2^16 / 2^24 blocks; x cache size {1 KiB, 64 KiB, 1 MiB, default} x max_objects_error {0,1,16} x timeouts {5 ms, none} x traffic scale; oracle: structural invariants from verif_stats() after every push batch (cached bytes <= cache + 1 packet, waiting blocks <= cache + 2 blocks - on the hook's counter and, with a calibrated per-block allowance, on the real live heap -, error list <= max_objects_error, <= 10 complete FDTs), slope test on live heap (10x more traffic of the same kind costs no more than the configured bound), release after sleeping 12x the timeouts and one cleanup (no session, object or unfinished FDT left, heap back to baseline + 192 KiB); a case is one scenario, non-trivial when packets were pushed; distinct = scenario parameters",
+        rule: "traffic that keeps things undecodable, one scenario per single-threaded child process under the counting allocator: one object cached without FDT, many cached objects, decoded blocks waiting behind an incomplete block 0 (No-Code, RS28, RS28 under-specified, RaptorQ), FDT instance ids that never complete, FDT instances that arrive completely and do not parse, hundreds of idle sessions, objects failing one after the other, many complete FDT instances, objects stalling under FDT updates, packets naming source blocks far ahead inside an announced partitioning of 2^16 / 2^24 blocks; x cache size {1 KiB, 64 KiB, 1 MiB, default} x max_objects_error {0,1,16} x timeouts {5 ms, none} x traffic scale; oracle: structural invariants from verif_stats() after every push batch (cached bytes <= cache + 1 packet, waiting blocks <= cache + 2 blocks - on the hook's counter and, with a calibrated per-block allowance, on the real live heap -, error list <= max_objects_error, <= 10 complete FDTs), slope test on live heap (10x more traffic of the same kind costs no more than the configured bound), release after sleeping 12x the timeouts and one cleanup (no session, object or unfinished FDT left, heap back to baseline + 192 KiB); a case is one scenario, non-trivial when packets were pushed; distinct = scenario parameters",
         assumptions: vec![
             "heap numbers are process-wide counters of a single-threaded child; the monitoring writer stores no data".into(),
             "the number of simultaneously live objects / sessions within the timeout is a parameter of the bound, not a violation".into(),
